@@ -171,6 +171,34 @@ def pollAllWith (ops : Ops W) (savePrev : Bool) (d : Daemon W) (rdy : Ready) : D
 def pollAll (ops : Ops W) (d : Daemon W) (rdy : Ready) : Daemon W :=
   pollAllWith ops pollSavesPrev d rdy
 
+/-! ### poll with the internal thread
+
+  MHD_polling_thread runs `MHD_poll_all (daemon, -1); MHD_cleanup_connections` for ever.  The
+  thread is blocked inside poll(): seen from there one cycle is "poll returns — new connections —
+  reset of data_already_pending — handler traversal over the array built before the call — cleanup —
+  (next call of MHD_poll_all:) resume — build the array — compute the timeout — poll".  The
+  timeout argument is the daemon's own answer to "may I sleep?": 0 if a connection was resumed
+  just now or a connection of the array is in CLEANUP, else MHD_get_timeout64. -/
+
+/-- what MHD_poll_all does before it calls poll(): the resumed daemon and the timeout class -/
+def pollPark (d : Daemon W) : Daemon W × Hint :=
+  let d1 := if d.allowSuspend then resumeSuspended d else d
+  let resumed := d1.conns.length != d.conns.length
+  let hint := if resumed || d1.conns.any (fun c => c.loc.eli.isCleanup) then Hint.zero else getTimeout d1
+  (d1, hint)
+
+/-- from one poll() to the next; `d` is the daemon as it is while the thread sits in poll()
+    (resume already done, array = `d.conns`), `rdy` the revents -/
+def pollThreadCycleWith (ops : Ops W) (savePrev : Bool) (d : Daemon W) (rdy : Ready) : Daemon W × Hint :=
+  let parr := d.conns.reverse.map (·.id)
+  let d2 := if d.haveNew then newConnsProcess d else d
+  let d3 := { d2 with dap := false }
+  let d4 := pollTrav ops savePrev parr rdy (d3.conns.length + 1) 0 (tailId d3.conns) d3
+  pollPark (cleanupConns d4)
+
+def pollThreadCycle (ops : Ops W) (d : Daemon W) (rdy : Ready) : Daemon W × Hint :=
+  pollThreadCycleWith ops pollSavesPrev d rdy
+
 /-! ### epoll -/
 
 /-- one epoll_event for a connection: EPOLLIN, EPOLLOUT, EPOLLPRI|EPOLLERR|EPOLLHUP -/
